@@ -63,7 +63,7 @@ Definition sub_ok (p : pipeline) (I S : list str) (exact : bool) (obs : sx) : bo
    work; not computable => rejected; computable but with provided names that nothing reads => the property does
    not say (a refusal is allowed; an accepted request must still give the right values) *)
 Definition judge (p : pipeline) (I S : list str) (ok_exact ok_loose : sx -> bool) (obs : sx) : bool :=
-  if negb (forallb (is_output p) S) || match S with [] => true | _ => false end then true
+  if negb (forallb (is_output p) S) || existsb (fun o => mem_str o I) S || match S with [] => true | _ => false end then true
   else if computableb p I S then
     if all_readb p I S then ok_exact obs else sx_is_err obs || ok_loose obs
   else sx_is_err obs.
